@@ -33,7 +33,7 @@ func runC04(c *Ctx) {
 	}
 	e.emit(R)
 	c.floor(R, 20, "pointer-field dereferences and constant indices in the two readers")
-	resultDiscipline(c, []string{cdxUnser, spdxUnser, "reader.(*Reader).ParseStreamWithOptions", "reader.(*Reader).detectFormat", "formats.(*Sniffer).SniffReader"})
+	resultDiscipline(c, []string{cdxUnser, spdxUnser, "reader.(*Reader).ParseStreamWithOptions", "reader.(*Reader).detectFormat", "formats.(*Sniffer).SniffReader", "reader.GetFormatUnserializer"})
 	noExitRule(c, parserEntries)
 	wellFounded(c, parserEntries)
 	geometricAccumulation(c, ds)
